@@ -245,6 +245,15 @@ def gen_cases(R, bases):
         x = rng.choice(lay["bounds"] + [lay["size"] + 1, lay["size"] + 4096])
         mk(b, [(s1[1], "p", s1[3], enc(s1[7], s1[4], s1[5])), (s1[1], "t", max(x, s1[3] + s1[4]))], "field+trunc",
            "%s: %s %#x -> %#x, file %d cut/extended to %d" % (b.name, s1[2], s1[6], s1[7], s1[1], max(x, s1[3] + s1[4])))
+    # 6. regression corpus: minimised inputs of past failures (found by the thorough tier's evolving stream), run on every tier
+    try:
+        regress = json.load(open(os.path.join(kdf.VERIF, "corpus", "c03_regress.json")))
+    except OSError:
+        regress = []
+    for r in regress:
+        for b in bases:
+            if b.name == r["base"]:
+                mk(b, [tuple(m) for m in r["mutations"]], "regress", "%s: past failure (%s)" % (b.name, r["why"]))
     # 5. degenerate files
     b0 = bases[0]
     for size in (0, 1, 7, 8, 63, 64, 4095, 4096, 4097):
